@@ -736,9 +736,11 @@ def initialize_X_and_G(
             f" not match the size of x ({x.size})!"
         )
     # restore the past X and G
+    # sk[j] = X[j+1] - X[j] with X[-1] = checkpoint.x: walk back from the newest
+    # point and restore the chronological order (oldest first).
     for x, g in zip(
-        checkpoint.x - np.cumsum(checkpoint.hess_inv.sk, axis=0),
-        checkpoint.jac - np.cumsum(checkpoint.hess_inv.yk, axis=0),
+        (checkpoint.x - np.cumsum(checkpoint.hess_inv.sk[::-1], axis=0))[::-1],
+        (checkpoint.jac - np.cumsum(checkpoint.hess_inv.yk[::-1], axis=0))[::-1],
     ):
         if len(X) > maxcor:
             X.popleft()
